@@ -23,12 +23,15 @@ def run(ctx):
     rwi = fb.find("repl::run_with_interpreter")
 
     # ------------------------------------------------------------------ C18-last-value
+    ctx.rule("C18-definitions-intact", "a submission — successful or failing at read or evaluation time — leaves the interpreter with the "
+                                       "environment and the syntax environment it had (earlier definitions and macros stay): flow table of eval")
     ctx.rule("C18-last-value", "what a submission shows is the value of its last form (nothing for a definition): "
                                "Interpreter::eval returns the last form's result, not an earlier one")
     ctx.rule("C18-earlier-forms", "the forms of a submission before a failing one are evaluated (their definitions stay): each form is "
                                   "evaluated before the next is read, a failure stops the submission there")
     from . import c17, maintables
-    d_lv = maintables.rule_eval_flow(ctx, {"last-value": "C18-last-value", "incremental": "C18-earlier-forms", "stop-at-first": "C18-earlier-forms"})
+    d_lv = maintables.rule_eval_flow(ctx, {"last-value": "C18-last-value", "incremental": "C18-earlier-forms", "stop-at-first": "C18-earlier-forms",
+                                            "state-kept": "C18-definitions-intact"})
     ctx.guarded("C18-last-value", d_lv, lambda: c17.last_value_rule(ctx, fb, "C18-last-value"))
 
     # ------------------------------------------------------------------ C18-agreement
